@@ -211,10 +211,14 @@ def _alarm(signum, frame):
 
 
 def guarded(fn):
-    """outcome classes: ('ok', value) | ('err', code) | ('escaped', cls) | ('hang',)"""
+    """outcome classes: ('ok', value) | ('err', code) | ('escaped', cls) | ('hang',).
+    Hang detector: 10 s of CPU time of this process (ITIMER_PROF: a runaway loop or recursion; not fooled by a
+    machine shared with other checks) plus a 300 s wall-clock backstop."""
     from elementpath.exceptions import ElementPathError
     signal.signal(signal.SIGALRM, _alarm)
-    signal.alarm(10)
+    signal.signal(signal.SIGPROF, _alarm)
+    signal.setitimer(signal.ITIMER_PROF, 10.0)
+    signal.alarm(300)
     try:
         return ('ok', fn())
     except ElementPathError as e:
@@ -226,6 +230,7 @@ def guarded(fn):
     except Exception as e:  # noqa
         return ('escaped', type(e).__name__)
     finally:
+        signal.setitimer(signal.ITIMER_PROF, 0)
         signal.alarm(0)
 
 
